@@ -94,6 +94,10 @@ class Variant:
 
     @property
     def name(self) -> str:
+        if self.rename is None and self.ident.startswith("r#"):
+            # a raw identifier: whether the name is `r#type` or `type` is not documented.  The model leaves it
+            # open (sentinel); the monitors learn it from as_str and require every other item to agree with it.
+            return "\x01" + self.ident
         return self.ident if self.rename is None else self.rename
 
 
